@@ -331,8 +331,74 @@ def r4_process_handle_identity(ctx):
                   "function differs from every other handle of the same process" % (sorted(other) or "something else"), hs.loc(bi, si))
 
 
+NARROWING = ("to_i64", "to_u64", "to_i32", "to_u32", "to_i128", "to_u128", "to_usize", "to_isize", "to_i16", "to_u16", "to_i8", "to_u8", "to_f64", "to_f32",
+             "try_from", "try_into")
+
+
+def r5_no_lossy_comparison(ctx):
+    R = "R-C13-5"
+    ctx.rule(R, "equality is decided on the values themselves: in the executor's equality code (handle_equal, values_equal, their closures and helpers) no "
+                "`==` / `!=` compares the results of two NARROWING conversions (to_i64, to_u64, try_into, to_f64, ...) — `a.to_i64() == b.to_i64()` makes "
+                "every pair of out-of-range integers equal (None == None) and a float round-trip merges neighbours")
+    F = ctx.facts
+    keys = []
+    for k in (EXEC + "::handle_equal", EXEC + "::values_equal"):
+        keys += F.with_closures(k)
+    n = 0
+    bad = []
+    for k in keys:
+        if k not in F.fns or not F.fns[k].get("mir"):
+            continue
+        b = F.body(k)
+        fl = Flow(b, through_named=True)
+
+        def narrowed(o):
+            """the operand is the RAW result of a narrowing conversion (an Option / Result compared as such: None == None), or its payload with a default
+            substituted for out-of-range values (unwrap_or ..). A payload taken after a Some / Ok test (pattern, unwrap, `?`) is a checked fast path."""
+            pl = op_place(o)
+            if not pl:
+                return None
+            ty = b.local_ty(pl["l"]) or ""
+            while ty.startswith("&"):
+                ty = ty[1:].lstrip()
+            raw = ty.startswith(("core::option::Option<", "core::result::Result<", "std::option::Option<", "std::result::Result<"))
+            through = ("Deref::deref", "Clone::clone", "Option::as_ref", "Option::copied", "Option::cloned") if raw else \
+                ("Option::unwrap_or", "Option::unwrap_or_default", "Option::unwrap_or_else", "Result::unwrap_or", "Result::unwrap_or_default", "Option::map_or")
+            srcs = fl.sources(pl["l"], through_calls=through)
+            if not raw and not any(x[0] == "const" for x in srcs) and not any(True for _b, t in b.calls() if t["dest"]["l"] in fl.backward({pl["l"]}, through_calls=through)
+                                                                                and (t.get("callee") or "").split("::")[-1].startswith(("unwrap_or", "map_or"))):
+                return None
+            calls = [x for x in srcs if x[0] == "call" and (x[2].get("callee") or "").split("::")[-1] in NARROWING]
+            if not calls:
+                return None
+            if not raw:
+                # payload-with-default form: the defaulting adaptor must be on the way
+                used = any((t.get("callee") or "").split("::")[-1].startswith(("unwrap_or", "map_or")) and t["dest"]["l"] in (fl.backward({pl["l"]}, through_calls=through) | {pl["l"]})
+                           for _b, t in b.calls())
+                if not used:
+                    return None
+            return calls[0][2].get("callee").split("::")[-1]
+        for bi, si, st in b.stmts():
+            if st["k"] == "assign" and st["rv"]["k"] == "bin" and st["rv"]["op"] in ("Eq", "Ne"):
+                n += 1
+                l, r = narrowed(st["rv"]["l"]), narrowed(st["rv"]["r"])
+                if l and r:
+                    bad.append((k, "%s == %s" % (l, r), b.loc(bi, si)))
+        for bi, t in b.calls():
+            c = t.get("callee") or ""
+            if c.split("::")[-1] in ("eq", "ne") and "PartialEq" in c and len(t["args"]) >= 2:
+                n += 1
+                l, r = narrowed(t["args"][0]), narrowed(t["args"][1])
+                if l and r:
+                    bad.append((k, "%s == %s" % (l, r), b.loc(bi)))
+    ctx.floor(R, "comparisons in the equality code", n, 3)
+    ctx.check(not bad, R, EXEC + "::handle_equal|no-lossy-comparison", "no comparison of narrowed operands among %d comparisons" % n,
+              "equality is decided by comparing narrowed conversions (%s): all values outside the target range compare equal" %
+              "; ".join("%s in %s at %s" % (w, k.split("::")[-1], loc) for k, w, loc in bad[:3]), bad[0][2] if bad else None)
+
+
 def run(ctx):
-    ctx.run_rules([r1_equality_table, r2_ref_minting, r3_canonical_shapes, r4_process_handle_identity])
+    ctx.run_rules([r1_equality_table, r2_ref_minting, r3_canonical_shapes, r4_process_handle_identity, r5_no_lossy_comparison])
     return (
         "Decides: coverage/symmetry of the values_equal variant-pair table (diagonal explicit, off-diagonal false, all binary representation "
         "pairs compared by content, tuples by canonical shape), single minting site for refs with an advancing counter and unchanged worker-id "
